@@ -62,6 +62,7 @@ inductive DExpr where
   | subscript (d k : DExpr)                -- d[k]
   | dict (items : DArgs)                   -- {"k": v, …}  (items as keyword arguments)
   | list (items : DArgs)                   -- [a, b, …]
+  | lam2 (x y : String) (body : DExpr)     -- lambda x, y: body   (no free local variables)
 /-- Argument lists: positional and keyword arguments in source order. -/
 inductive DArgs where
   | nil
@@ -86,6 +87,8 @@ structure DParam where
 structure DFunc where
   params : List DParam
   body : List DStmt
+  /-- `*name` -/
+  vararg : Option String := none
 
 structure DClass where
   name : String
@@ -114,6 +117,7 @@ inductive DVal where
   | clsV (c : String)
   | bi (b : String)
   | bound (recv : DVal) (m : String)
+  | closure (x y : String) (body : DExpr)    -- a two-argument lambda
   | filter (f : Filter)
   | obs (o : Observer)
   | expr (e : Expr)
@@ -327,6 +331,19 @@ def bindParams : List DParam → List DVal → List (String × DVal) → R Env
       | some d =>
         (ev [] d).bind fun v => (bindParams ps [] kws).bind fun r => .ok ((p.name, v) :: r)
 
+/-- … and the surplus positional arguments to `*name` (Python: a tuple; here a list). -/
+def bindAll (f : DFunc) (pos : List DVal) (kws : List (String × DVal)) : R Env :=
+  match f.vararg with
+  | Option.none => bindParams ev f.params pos kws
+  | some v =>
+    (bindParams ev f.params (pos.take (f.params.filter (!·.kwonly)).length) kws).bind fun env =>
+      .ok (env ++ [(v, .list (pos.drop (f.params.filter (!·.kwonly)).length))])
+
+/-- `functools.reduce(lambda x, y: body, [acc₀, v, …])` without initial value, after the first element. -/
+def reduceR (x y : String) (body : DExpr) : DVal → List DVal → RV
+  | acc, [] => .ok acc
+  | acc, v :: vs => (ev [(x, acc), (y, v)] body).bind fun r => reduceR x y body r vs
+
 /-- Run a function body: the returned value (`none` = fell off the end) and the final environment. -/
 def runBody : List DStmt → Env → R (Option DVal × Env)
   | [], env => .ok (Option.none, env)
@@ -356,13 +373,16 @@ def runBody : List DStmt → Env → R (Option DVal × Env)
   | .ret e :: _, env =>
     (ev env e).bind fun v => .ok (some v, env)
 
+/-- the value of a call: what the body returned, `None` if it fell off the end -/
+def retVal (r : Option DVal × Env) : RV := match r with | (x, _) => .ok (x.getD .none)
+
 /-- Call a translated function / method (receiver already in `pos`). -/
 def callFunc (cx : Ctx) (hookName : String) (f : DFunc) (pos : List DVal)
     (kws : List (String × DVal)) : RV :=
-  (bindParams ev f.params pos kws).bind fun env =>
+  (bindAll ev f pos kws).bind fun env =>
     match cx.hook hookName (env.map (·.2)) with
     | some r => .ofExcept r
-    | Option.none => (runBody ev f.body env).bind fun r => match r with | (x, _) => .ok (x.getD .none)
+    | Option.none => (runBody ev f.body env).bind retVal
 
 def apply (P : Prog) (cx : Ctx) (fv : DVal) (pos : List DVal) (kws : List (String × DVal)) : RV :=
   match fv with
@@ -374,7 +394,7 @@ def apply (P : Prog) (cx : Ctx) (fv : DVal) (pos : List DVal) (kws : List (Strin
     match findMethod P c "__init__" with
     | Option.none => stuck
     | some f =>
-      (bindParams ev f.params (.obj c [] :: pos) kws).bind fun env =>
+      (bindAll ev f (.obj c [] :: pos) kws).bind fun env =>
         (runBody ev f.body env).bind fun r =>
           match r with
           | (_, env') =>
@@ -394,6 +414,11 @@ def apply (P : Prog) (cx : Ctx) (fv : DVal) (pos : List DVal) (kws : List (Strin
       match cx.lark with
       | some t => .ok t
       | Option.none => .error (.exc "LarkError")
+    | _, _ => stuck
+  | .bi "functools.reduce" =>
+    match pos, kws with
+    | [.closure x y b, .list (v :: vs)], [] => reduceR ev x y b v vs
+    | [.closure _ _ _, .list []], [] => .error (.exc "TypeError")
     | _, _ => stuck
   | .bi b => applyBuiltin b pos kws
   | _ => stuck
@@ -415,6 +440,7 @@ def eval (P : Prog) (cx : Ctx) : Nat → Env → DExpr → RV
     | .cNone => .ok .none
     | .cBool b => .ok (.bool b)
     | .cStr s => .ok (.str s)
+    | .lam2 x y b => .ok (.closure x y b)
     | .attr e a => (eval P cx n env e).bind fun v => getAttr P v a
     | .eq a b =>
       (eval P cx n env a).bind fun va => (eval P cx n env b).bind fun vb =>
@@ -476,16 +502,16 @@ def runFunc (P : Prog) (cx : Ctx) (q : String) (args : List DVal) : RV :=
   match P.funcs.lookup q with
   | Option.none => stuck
   | some f =>
-    (bindParams (eval P cx FUEL) f.params args []).bind fun env =>
-      (runBody (eval P cx FUEL) f.body env).bind fun r => match r with | (x, _) => .ok (x.getD .none)
+    (bindAll (eval P cx FUEL) f args []).bind fun env =>
+      (runBody (eval P cx FUEL) f.body env).bind retVal
 
 /-- Run a translated method of class `c` (receiver first in `args`). -/
 def runMethod (P : Prog) (cx : Ctx) (c m : String) (args : List DVal) : RV :=
   match findMethod P c m with
   | Option.none => stuck
   | some f =>
-    (bindParams (eval P cx FUEL) f.params args []).bind fun env =>
-      (runBody (eval P cx FUEL) f.body env).bind fun r => match r with | (x, _) => .ok (x.getD .none)
+    (bindAll (eval P cx FUEL) f args []).bind fun env =>
+      (runBody (eval P cx FUEL) f.body env).bind retVal
 
 /-! ## the Lark tree of a derivation tree -/
 
@@ -505,6 +531,23 @@ def ruleName (t : Bool) : Cst → String
 def connName : Conn → String
   | .notify => "notify"
   | .quiet => "quiet"
+
+/-- The Lark tree of a derivation tree written out: `rule(child,…)`, a connector as
+`notify()` / `quiet()`, a NAME token as its (escaped) value.  The same rule names and
+the same positions (`t`) as the trees `interpTree` hands to the translated
+`_handle_tree`; the driver case `t <text>` compares it with the `Tree` objects that the
+real `_LARK_PARSER.parse` builds. -/
+def larkShow (esc : Name → String) (t : Bool) : Cst → String
+  | .trait n => "trait(" ++ esc n ++ ")"
+  | .items => "items()"
+  | .metadata n => "metadata(" ++ esc n ++ ")"
+  | .any => "anytrait()"
+  | .group p => larkShow esc false p
+  | .ser l c r =>
+    ruleName t (.ser l c r) ++ "(" ++ larkShow esc false l ++ "," ++ connName c ++ "()," ++
+      larkShow esc t r ++ ")"
+  | .par l r =>
+    ruleName t (.par l r) ++ "(" ++ larkShow esc t l ++ "," ++ larkShow esc t r ++ ")"
 
 def noHook : String → List DVal → Option Res := fun _ _ => Option.none
 
@@ -624,6 +667,18 @@ def interpCompileStrR (P : Prog) (parsed : Res) (rec : Expr → Res) : RV :=
 
 def interpCompileStr (P : Prog) (uw : Char → Bool) (s : List Char) : Res :=
   (interpCompileStrR P (interpParse P uw s) (interpCompileExpr P)).collapse
+
+/-- `join(e, e₁, …)` of the translated expression.py on a list of argument values. -/
+def interpJoinL (P : Prog) (args : List DVal) : Res :=
+  (runFunc P ⟨noHook, noLark⟩ "expression.join" args).collapse
+
+/-- the two parameters and the body of the lambda that `join` hands to `functools.reduce` -/
+def joinLam (P : Prog) : String × String × DExpr :=
+  match P.funcs.lookup "expression.join" with
+  | some ⟨_, [.ret (.call _ (.pos (.lam2 x y b) _))], _⟩ => (x, y, b)
+  | _ => ("", "", .cNone)
+
+def interpJoin (P : Prog) (e : Expr) (es : List Expr) : Res := interpJoinL P (.expr e :: es.map .expr)
 
 /-- how a result of the model reads as a result of the interpreter -/
 def liftRes {α : Type} (f : α → DVal) : Except Exc α → Res
